@@ -614,6 +614,43 @@ fn string_alphabet(rep: &Report) {
             }
         }
     });
+    // cross product: a presentation bound to string x must be rejected by a verifier expecting any OTHER string y
+    // of the alphabet (both for aud and for nonce)
+    let mut cross = vec![];
+    for (xi, x) in strs.iter().enumerate() {
+        for fmt in codec::FMTS {
+            cross.push((xi, *x, fmt));
+        }
+    }
+    par_for(rep, cross.len(), |i, l| {
+        let (xi, x, fmt) = cross[i];
+        let cfg = Cfg { fmt, alg: Alg::HS256, decoys: false, hk: Hk::Es };
+        let u = claims();
+        let Some(cred) = pipeline::issue_checked(&u, &Strat::All, &cfg, Checks::default(), "C04", l) else { return };
+        let sel: Map<String, Value> = json!({"a": true}).as_object().unwrap().clone();
+        for which in ["aud", "nonce"] {
+            let Out::Ok(mut h) = drive::holder_new(&cred.issued, fmt) else { return };
+            let (a, n) = if which == "aud" { (x, "fixed-nonce") } else { ("fixed-aud", x) };
+            let kb = KbArgs { nonce: Some(n.into()), aud: Some(a.into()), key: Hk::Es.enc(0), alg: Some("ES256".into()) };
+            let Out::Ok(p) = drive::present(&mut h, &sel, &kb) else { continue };
+            for (yi, y) in strs.iter().enumerate() {
+                if yi == xi {
+                    continue;
+                }
+                l.evals += 1;
+                let (ea, en) = if which == "aud" { (*y, "fixed-nonce") } else { ("fixed-aud", *y) };
+                let out = drive::verify(&p, keys::issuer_dec(Alg::HS256, 0), Some(ea), Some(en), fmt);
+                if !out.is_err() {
+                    let case = json!({"kind": "c04_cross", "which": which, "bound_to": x, "expected": y, "fmt": fmt.name()});
+                    l.violation(Violation::new("verify", if out.is_panic() { "panic" } else { "ok_where_err_required" }, format!("c04_accepted_other_{which}"), "aud_nonce_cross_product", format!("KB-JWT bound to {which}={x:?} accepted by a verifier expecting {y:?}"), case));
+                } else {
+                    l.outcome("must_reject_rejected");
+                    l.nontrivial += 1;
+                }
+            }
+        }
+    });
+    rep.scope_done(json!({"scope": "aud / nonce cross product: a presentation bound to each of the alphabet strings verified under every other string of the alphabet", "strings": strs.len()}));
     rep.scope_done(json!({"scope": "aud x nonce string alphabet (19 x 19) x 2 formats x 2 holder key types: honest accepted, off-by-one-character expectation rejected"}));
 }
 
@@ -722,6 +759,26 @@ pub fn replay(case: &Value) -> Vec<Violation> {
             let Some(kb) = w.kbs.iter().find(|k| case["kb"] == k.label.as_str()) else { return vec![] };
             let fmt = if case["fmt"] == "json" { Fmt::Json } else { Fmt::Compact };
             compose(j, list, lab, kb, case["expect_aud"].as_str(), case["expect_nonce"].as_str(), fmt, &mut l);
+        }
+        "c04_cross" => {
+            let fmt = if case["fmt"] == "json" { Fmt::Json } else { Fmt::Compact };
+            let which = case["which"].as_str().unwrap_or("aud");
+            let (x, y) = (case["bound_to"].as_str().unwrap_or(""), case["expected"].as_str().unwrap_or(""));
+            let cfg = Cfg { fmt, alg: Alg::HS256, decoys: false, hk: Hk::Es };
+            if let Some(cred) = pipeline::issue_checked(&claims(), &Strat::All, &cfg, Checks::default(), "C04", &mut l) {
+                if let Out::Ok(mut h) = drive::holder_new(&cred.issued, fmt) {
+                    let (a, n) = if which == "aud" { (x, "fixed-nonce") } else { ("fixed-aud", x) };
+                    let kb = KbArgs { nonce: Some(n.into()), aud: Some(a.into()), key: Hk::Es.enc(0), alg: Some("ES256".into()) };
+                    let sel: Map<String, Value> = json!({"a": true}).as_object().unwrap().clone();
+                    if let Out::Ok(p) = drive::present(&mut h, &sel, &kb) {
+                        let (ea, en) = if which == "aud" { (y, "fixed-nonce") } else { ("fixed-aud", y) };
+                        let out = drive::verify(&p, keys::issuer_dec(Alg::HS256, 0), Some(ea), Some(en), fmt);
+                        if !out.is_err() {
+                            l.violation(Violation::new("verify", if out.is_panic() { "panic" } else { "ok_where_err_required" }, format!("c04_accepted_other_{which}"), "aud_nonce_cross_product", String::new(), case.clone()));
+                        }
+                    }
+                }
+            }
         }
         "c04_text" => {
             let cfg = Cfg::from_json(&case["cfg"]);
